@@ -182,3 +182,119 @@ def _nonsq(h):
     for fn in ("nullTi", "nullT", "nullMZi", "nullMZ"):
         out = h.call(getattr(dec, fn), 1, 0, U)
         h.ensure(f"{fn}-raises-ValueError", out.raised("ValueError"))
+
+
+# ------------------------------------------------------------------ graph_embed / bipartite_graph_embed: the drivers
+"""The LAPACK callees (takagi, numpy.linalg.svd) and the root finder adj_scaling are replaced by their contracts; the matrix
+has SYMBOLIC complex entries (2 x 2; shape-bounded).  Obligations:
+  * callee precondition: takagi is only ever handed a matrix that is symmetric within the tolerance the caller documents
+    (a Hermitian, non-symmetric matrix must go to the general branch - it is a valid bipartite input);
+  * the matrix handed on is scale x the input (made traceless first when requested) with the scale adj_scaling returned
+    for THAT matrix and the requested photon number;
+  * the squeezing parameters are -arctanh of the returned singular values and the unitaries are the callee's factors,
+    arranged so that  scale A = U diag(s) V^T  (V = U for the Takagi branch, V = (V^H)^T for the SVD branch);
+  * non-square / non-symmetric input of graph_embed rejected with ValueError."""
+def _embed_driver(which, make_traceless=False, family="general"):
+    def fn(h):
+        dec = h.module(D)
+        A = cmat(h, "A", 2)
+        if family == "hermitian":
+            # A = [[a, b + i c], [b - i c, d]] with real a, b, c, d: a valid (bipartite) input that is symmetric iff c = 0
+            a_, b_, c_, d_ = h.real("a"), h.real("b"), h.real("c"), h.real("d")
+            A[0, 0], A[1, 1] = SC.lift(a_), SC.lift(d_)
+            A[0, 1], A[1, 0] = SC(z3real(b_), z3real(c_)), SC(z3real(b_), z3real(-c_))
+        nmean = h.real("mean_photon")
+        h.require(nmean > 0)
+        scale = h.real("scale")
+        h.require(scale > 0)
+        seen = {"adj": [], "takagi": [], "svd": []}
+        s_out = [h.real("s0"), h.real("s1")]
+        h.require(And(s_out[0] >= 0, s_out[0] < 1, s_out[1] >= 0, s_out[1] < 1))
+        U = cmat(h, "U", 2)
+        Vh = cmat(h, "Vh", 2)
+
+        def adj_scaling(M, n_mean):
+            seen["adj"].append((M, n_mean))
+            return scale
+
+        def takagi(M, tol=None, rounding=13):
+            seen["takagi"].append(M)
+            return np.array(s_out, dtype=object), U
+
+        def svd(M, *a, **k):
+            seen["svd"].append(M)
+            return U, np.array(s_out, dtype=object), Vh
+        npx = dec.np
+        old_svd = npx.linalg.svd
+        with h.stubbed(dec, "adj_scaling", adj_scaling), h.stubbed(dec, "takagi", takagi):
+            npx.linalg.svd = svd
+            try:
+                if which == "graph_embed":
+                    out = h.call(dec.graph_embed, A, mean_photon_per_mode=nmean, make_traceless=make_traceless)
+                else:
+                    out = h.call(dec.bipartite_graph_embed, A, mean_photon_per_mode=nmean)
+            finally:
+                npx.linalg.svd = old_svd
+        sym = And(*[abs(SC.lift(A[i, j]) - SC.lift(A[j, i])) <= 1e-8 + 1e-5 * abs(SC.lift(A[j, i])) for i in range(2) for j in range(2) if i != j])
+        if which == "graph_embed" and not out.returned:
+            h.ensure("rejects-only-with-ValueError", out.raised("ValueError"), bounded_shape=True)
+            h.ensure("rejects-only-non-symmetric-input", Not(sym), bounded_shape=True)
+            return
+        h.ensure("no-exception", out.returned, bounded_shape=True)
+        if not out.returned:
+            return
+        if which == "graph_embed":
+            h.ensure("accepts-only-symmetric-input", sym, bounded_shape=True)
+        h.ensure("scale-computed-once", len(seen["adj"]) == 1, bounded_shape=True)
+        h.ensure("one-factorisation", len(seen["takagi"]) + len(seen["svd"]) == 1, bounded_shape=True)
+        if len(seen["adj"]) != 1 or len(seen["takagi"]) + len(seen["svd"]) != 1:
+            return
+        tr = (SC.lift(A[0, 0]) + SC.lift(A[1, 1])) / 2 if make_traceless else 0
+        base = [[SC.lift(A[i, j]) - (tr if i == j else 0) for j in range(2)] for i in range(2)]
+        M_adj, n_adj = seen["adj"][0]
+        if which == "graph_embed":
+            for i in range(2):
+                for j in range(2):
+                    h.ensure(f"scale-is-computed-for-the-matrix-that-is-embedded[{i},{j}]", eqv(SC.lift(M_adj[i, j]), base[i][j]), bounded_shape=True)
+            h.ensure("scale-is-computed-for-the-requested-photon-number", eqv(n_adj, 2 * nmean), bounded_shape=True)
+        else:
+            want = [[0, 0, A[0, 0], A[0, 1]], [0, 0, A[1, 0], A[1, 1]], [A[0, 0], A[1, 0], 0, 0], [A[0, 1], A[1, 1], 0, 0]]
+            ok = tuple(np.shape(M_adj)) == (4, 4)
+            h.ensure("scale-is-computed-for-the-bipartite-adjacency-matrix.shape", ok, bounded_shape=True)
+            if ok:
+                for i in range(4):
+                    for j in range(4):
+                        h.ensure(f"scale-is-computed-for-the-bipartite-adjacency-matrix[{i},{j}]", eqv(SC.lift(M_adj[i, j]), SC.lift(want[i][j])), bounded_shape=True)
+            h.ensure("scale-is-computed-for-the-requested-photon-number", eqv(n_adj, 4 * nmean), bounded_shape=True)
+        M = (seen["takagi"] or seen["svd"])[0]
+        for i in range(2):
+            for j in range(2):
+                h.ensure(f"factorised-matrix-is-scale-x-input[{i},{j}]", eqv(SC.lift(M[i, j]), scale * base[i][j]), bounded_shape=True)
+        if seen["takagi"] and which != "graph_embed":      # graph_embed: implied by accepts-only-symmetric-input + factorised = scale x input
+            for i in range(2):
+                for j in range(2):
+                    if i != j:
+                        h.ensure(f"callee-precondition.takagi.argument-symmetric[{i},{j}]",
+                                 abs(SC.lift(M[i, j]) - SC.lift(M[j, i])) <= 1e-8 + 1e-5 * abs(SC.lift(M[j, i])), bounded_shape=True)
+        res = out.value
+        m_ = h.eng.math
+        vals = res[0]
+        for k in range(2):
+            # stated through the defining equation of arctanh: tanh(-r_k) = s_k
+            h.ensure(f"squeezing[{k}]-is-minus-arctanh-of-the-singular-value", eqv(m_.tanh(-vals[k]), s_out[k]), bounded_shape=True)
+        h.ensure("U-is-the-callee's-factor", res[1] is U or all(res[1][i, j] is U[i, j] for i in range(2) for j in range(2)), bounded_shape=True)
+        if which != "graph_embed":
+            V = res[2]
+            if seen["takagi"]:
+                h.ensure("V-equals-U-for-a-symmetric-matrix", V is U or all(V[i, j] is U[i, j] for i in range(2) for j in range(2)), bounded_shape=True)
+            else:
+                h.ensure("V-is-the-transpose-of-the-SVD's-V^H", all(V[i, j] is Vh[j, i] for i in range(2) for j in range(2)), bounded_shape=True)
+    fn.__name__ = ""
+    return fn
+
+
+PROOFS.append(Proof(["C17", "C02"], D + ":bipartite_graph_embed", _embed_driver("bipartite"), name="bipartite_graph_embed/driver"))
+PROOFS.append(Proof(["C17", "C02"], D + ":bipartite_graph_embed", _embed_driver("bipartite", family="hermitian"), name="bipartite_graph_embed/driver/hermitian-input",
+                    native="from native.c17_decomp import replay_bipartite; replay_bipartite(OBLIGATION, I)"))
+PROOFS.append(Proof(["C17", "C02"], D + ":graph_embed", _embed_driver("graph_embed", False), name="graph_embed/driver"))
+PROOFS.append(Proof(["C17", "C02"], D + ":graph_embed", _embed_driver("graph_embed", True), name="graph_embed/driver/make_traceless"))
